@@ -99,6 +99,27 @@ func IPv4(t *rapid.T, label string) [4]byte {
 	if rapid.IntRange(0, 4).Draw(t, label+".edge") == 0 {
 		return rapid.SampledFrom([][4]byte{{0, 0, 0, 0}, {255, 255, 255, 255}, {192, 168, 1, 100}, {10, 0, 0, 1}, {127, 0, 0, 1}, {255, 255, 255, 0}, {1, 2, 3, 4}, {169, 254, 0, 255}}).Draw(t, label)
 	}
+	if rapid.IntRange(0, 3).Draw(t, label+".range") == 0 {
+		// an address from one of the ranges for which the standard library has a predicate of its own (IsLinkLocalUnicast,
+		// IsMulticast, IsLoopback, IsPrivate, IsUnspecified ...) or that network code likes to treat specially
+		r := rapid.SampledFrom([][2][4]byte{
+			{{169, 254, 0, 0}, {255, 255, 0, 0}}, {{224, 0, 0, 0}, {255, 255, 255, 0}}, {{224, 0, 0, 0}, {240, 0, 0, 0}}, {{239, 255, 0, 0}, {255, 255, 0, 0}}, {{127, 0, 0, 0}, {255, 0, 0, 0}},
+			{{10, 0, 0, 0}, {255, 0, 0, 0}}, {{172, 16, 0, 0}, {255, 240, 0, 0}}, {{192, 168, 0, 0}, {255, 255, 0, 0}}, {{100, 64, 0, 0}, {255, 192, 0, 0}}, {{0, 0, 0, 0}, {255, 0, 0, 0}},
+			{{240, 0, 0, 0}, {240, 0, 0, 0}}, {{192, 0, 2, 0}, {255, 255, 255, 0}}, {{198, 18, 0, 0}, {255, 254, 0, 0}}, {{192, 88, 99, 0}, {255, 255, 255, 0}}}).Draw(t, label+".which")
+		var ip [4]byte
+		for i := range ip {
+			ip[i] = r[0][i] | (rapid.Byte().Draw(t, label+".host") &^ r[1][i])
+		}
+		switch rapid.IntRange(0, 5).Draw(t, label+".host.kind") {
+		case 0: // the range's own broadcast address
+			for i := range ip {
+				ip[i] = r[0][i] | ^r[1][i]
+			}
+		case 1: // its network address
+			ip = r[0]
+		}
+		return ip
+	}
 	return [4]byte{rapid.Byte().Draw(t, label+".a"), rapid.Byte().Draw(t, label+".b"), rapid.Byte().Draw(t, label+".c"), rapid.Byte().Draw(t, label+".d")}
 }
 
